@@ -35,6 +35,8 @@ func runC04(c *Ctx) {
 	checkFirstVersionFrozen(c)
 	checkPayloadNotAliased(c)
 	checkStateOnlyOnSuccess(c, "R4.11")
+	// every acknowledged commit stays in the stored history: one live instance per entity (shared with C18)
+	checkSingleInstance(c, newLockWorld(c.W))
 	// "logical times … read through the cache and a second replica after push/pull": what is read is
 	// witnessed (so the next commit sorts after it) and what is pulled is what the cache serves
 	checkWitnessAll(c, "R5.3")
